@@ -292,8 +292,46 @@ struct Model {
 			// by path: "name", "name=index" (untitled multi) or "name=title"
 			size_t eq = name.find('=');
 			std::string base = name.substr(0, eq);
-			if (base.find_first_of("|'\\") != std::string::npos || (eq != std::string::npos && name.find_first_of("|'\\", eq) != std::string::npos))
+			if (base.find_first_of("|'\\") != std::string::npos)
 				return DONTCARE;
+			// the part after '=': a bare word up to the end, or a quoted title '...' in which \' and \\ are the only escapes
+			std::string q;
+			bool quoted = false, malformed = false;
+			if (eq != std::string::npos) {
+				std::string rest = name.substr(eq + 1);
+				if (!rest.empty() && rest[0] == '\'') {
+					quoted = true;
+					size_t i = 1;
+					bool closed = false;
+					while (i < rest.size()) {
+						char c = rest[i];
+						if (c == '\'') {
+							closed = true;
+							i++;
+							break;
+						}
+						if (c == '\\') {
+							if (i + 1 < rest.size() && (rest[i + 1] == '\'' || rest[i + 1] == '\\')) {
+								q += rest[i + 1];
+								i += 2;
+								continue;
+							}
+							malformed = true;
+							break;
+						}
+						q += c;
+						i++;
+					}
+					if (!malformed && !closed)
+						malformed = true;
+					if (!malformed && rest.find_first_not_of('|', i) != std::string::npos)
+						return DONTCARE; // a further path component follows
+				} else {
+					if (rest.find_first_of("|'\\") != std::string::npos)
+						return DONTCARE;
+					q = rest;
+				}
+			}
 			json *o = find_opt(*node, base, nocase());
 			if (!o || (*o)["t"] != "sec") {
 				*why = "not a section";
@@ -304,10 +342,11 @@ struct Model {
 			if (eq == std::string::npos)
 				i = 0;
 			else if (fl & F_MULTI) {
-				std::string q = name.substr(eq + 1);
-				if (q.empty())
+				if (q.empty() && !quoted)
 					return DONTCARE;
-				if (fl & F_TITLE)
+				if (malformed)
+					i = -1;
+				else if (fl & F_TITLE)
 					i = title_index(*o, q, nocase());
 				else {
 					char *end = nullptr;
